@@ -15,10 +15,18 @@ MANIFEST = {
             "built-in names read back (exhaustive over the regenerated table), the repaired string literal is read back "
             "by the grammar's string rule, the inlining is independent of scope order, re-emission of a reloaded function "
             "is the identity, the emitted body is closed, and inlining preserves evaluation (outcome and store) for "
-            "lambda-free bodies at every depth; current-code defects are refuted lemmas.  EMIT correspondence: for generated "
+            "lambda-free bodies at every depth; HIGHER-ORDER captured values (proofs/EmitHO*.v): a value relation 'v' is v after emit + "
+            "reload' and the simulation theorem — related functions on related arguments give related outcomes at every depth, from "
+            "any scope chains and stores — for every operator / built-in implementation respecting the relation, discharged arm by arm "
+            "for the transcribed operators (all but == != .== .!=) and the built-ins map filter reduce every some abs floor ceil trunc "
+            "sqrt typeof arity to_bool ugt ult ugte ulte any all; corollaries: emission equivalence for closures capturing closures to "
+            "any depth with first-order results equal and function results related, re-emission chains related to the original; "
+            "PARTIAL: the other arms of builtin_full, NaN / both-quote captured data (C05_all_builtins_rel_full kept as a Prop); the "
+            "original C05_full statement is REFUTED (function equality, finding F53); current-code defects are refuted lemmas.  EMIT correspondence: for generated "
             "functions x captured value pool the AST the real parser returns for the real emitted text, and the body of the "
             "real reloaded function, equal the model's inlined AST; behaviour original vs reloaded-in-fresh-session vs "
-            "re-emitted-and-reloaded on the implementation and through the real CLI binary",
+            "re-emitted-and-reloaded (chains of length 3) on the implementation and through the real CLI binary, incl. closures capturing "
+            "closures capturing closures and functions returned by reloaded functions and then called (capture-depth distribution in the evidence)",
     "note": "trusted: Coq kernel + vm_compute; Emit.v / Eval.v transcriptions validated by the EMIT stream; the text layer "
             "(printer/parser round trip) is C07's and is exercised here only through the real parser; no axioms",
     "design_ref": "DESIGN.md section 6 C05; notes/C05.md",
@@ -51,6 +59,14 @@ POOL = [
     ("closure", "k = z => z * 2"), ("closure", "c0 = 3\nk = z => z + c0"), ("closure", "c0 = -3\nk = (z, w?) => [z, w, c0]"),
     ("closure", "c0 = \"s\"\ng = z => z + c0\nk = z => g(z) + g(z)"), ("closure", "k = (...r) => r"),
     ("closure", "c0 = [1, 2]\nk = {f: z => c0[z], n: -1}"), ("closure", "c0 = 2\nk = a => b => a + b + c0"),
+    # capture depth 3 and more: closures capturing closures capturing closures (directly, through factories,
+    # through a record, with a do-block local), and the F53 shape (two closures differing only in captured values)
+    ("closure3", "c0 = 2\nh = z => z * c0\ng = y => h(y + c0)\nk = w => g(w) + h(w)"),
+    ("closure3", "mk = a => b => c => a + b + c\nk = mk(1)(2)"),
+    ("closure3", "c0 = [1, 2]\nh = z => c0[z]\ng = {f: y => h(y), d: -1}\nk = v => g.f(v)"),
+    ("closure3", "c0 = \"s\"\nh = z => [z, c0]\ng = y => do {\n  t = h(y)\n  return (u => [t, u, h(u)])\n}\nk = w => g(w)(w)"),
+    ("closure3", "c0 = 3\nh = z => z + c0\ng = y => map([y, h(y)], h)\nk = w => g(w) via h"),
+    ("closureeq", "mk = a => (y => y + a)\nk1 = mk(1)\nk = {p: mk(2), q: k1, t: k1 == mk(2), u: [mk(1)] == [mk(2)]}"),
 ]
 
 # bodies over parameters x (and y), captured k (and j = 2): (params, body) — "small shapes"
@@ -90,7 +106,12 @@ def small_bodies():
             ("x", "-(x + k)"), ("x", "(x + k)!"), ("x", "x - (k - j)"), ("x", "x + (k - j)"), ("x", "(if x then k else j) + 1"),
             ("x", "k == (x < j)"), ("x", "x and (k or j)"), ("x", "(k ^ j) ?? x"),
             ("x, y", "[x, y, k]"), ("x, y?", "[x, y, k]"), ("x, ...y", "[x, y, k]"), ("", "k"), ("...x", "[x, k]"),
-            ("k", "k"), ("x", "inputs"), ("x", "[constants.pi, inf, infinity, k]")]
+            ("k", "k"), ("x", "inputs"), ("x", "[constants.pi, inf, infinity, k]"),
+            # results that are functions (called again by the argument form "1)(2"), closures created by the body
+            # that capture the captured closure, and function equality (F53)
+            ("x", "y => [k, x, y]"), ("x", "y => z => [k, x, y, z]"), ("x", "do {\n  t = k\n  return (y => [t, y, x])\n}"),
+            ("x", "[y => k, k]"), ("x", "{f: y => [k, y], g: k}.f"), ("x", "map([x, 1], y => [k, y])"),
+            ("x", "k.p == k.q"), ("x", "[k.t, k.u, k.p(x), k.q(x)]"), ("x", "k.p != x")]
     return out
 
 
@@ -108,7 +129,8 @@ def rand_body(rng, depth):
     return t % (rand_body(rng, depth - 1), rand_body(rng, depth - 1))
 
 
-ARGS1 = ["1", "-2", "0", "\"s\"", "[1, 2, 3]", "null", "{a: 1}", "true", "false", "z => z"]
+# "1)(2": the call text becomes f(1)(2) — a function returned by the (reloaded) function is called
+ARGS1 = ["1", "-2", "0", "\"s\"", "[1, 2, 3]", "null", "{a: 1}", "true", "false", "z => z", "1)(2", "z => z + 3"]
 ARGSN = {"": [""], "x": ARGS1, "k": ["1", "\"s\""], "...x": ["", "1, 2"], "x, y": ["1, 2", "\"a\", [1]"],
          "x, y?": ["1", "1, 2"], "x, ...y": ["1", "1, 2, 3"]}
 
@@ -244,7 +266,44 @@ WITNESS = {
     "F8": ("g = 7\nf = do {\n  g = () => g\n  return g\n}", [""]),
     "F12-F14": ("k = 2\nf = x => -(x + k)", ["1"]),
     "F51": ("k = 5\nf = x => (k into (z => [z, x]))", ["1"]),
+    "F53": ("mk = a => (y => y + a)\nk1 = mk(1)\nk2 = mk(2)\nf = x => k1 == k2", ["0"]),
 }
+
+
+def capture_depth(val):
+    """nesting depth of VLam inside VLam in the Gallina term of a function value: 1 = captures data only"""
+    depth = best = 0
+    stack = []          # for every open parenthesis: does it open a VLam
+    i, n = 0, len(val)
+    while i < n:
+        ch = val[i]
+        if ch == '"':
+            i = val.find('"', i + 1)
+            if i < 0:
+                break
+        elif ch == "(":
+            is_lam = val.startswith("(VLam ", i)
+            stack.append(is_lam)
+            if is_lam:
+                depth += 1
+                best = max(best, depth)
+        elif ch == ")" and stack:
+            if stack.pop():
+                depth -= 1
+        i += 1
+    return best
+
+
+EQ_TOKENS = ["==", "!=", "unique", "includes"]
+
+
+def f52_class(prog, val, args):
+    """mirror of the Coq exclusion for F53 (narrower: the theorems exclude every body with == != .== .!=):
+    an equality operator / equality-using built-in occurs in the program AND a function value is around
+    to be compared (a captured closure, or an argument that is a function)"""
+    if not any(t in prog for t in EQ_TOKENS):
+        return False
+    return capture_depth(val) >= 2 or any("=>" in a for a in args)
 
 
 def reproduces(h, wid):
@@ -254,7 +313,7 @@ def reproduces(h, wid):
         # the emission itself: the reloaded function still differs while the plain printer used by
         # the reload path drops the parentheses again (F12-F14)
         return "(-5)" not in c.unhex(d.get("SRC", "")), d
-    return any(len(r) == 3 and not (r[0] == r[1] == r[2]) for r in d["R"]), d
+    return any(len(r) >= 3 and not (r[0] == r[1] == r[2] == r[-1]) for r in d["R"]), d
 
 
 def repo_state(h):
@@ -308,7 +367,25 @@ def _excuse(nan, esc, dosh, selfn, lossy0, lossy1, topnat, state, what):
 
 
 # --------------------------------------------------------------------------- CLI chains
-def cli_chain(cli, prog, args):
+# functions that mention the session's `inputs` (by name, through #name, directly or inside a captured closure):
+# `inputs` is an ordinary captured binding, so such a function is closed after capture and must carry the values
+# it saw to a fresh program that has OTHER inputs (round 4, seed C05-7: `inputs` left as a bare name on emission;
+# no in-process session of this check had a non-empty inputs record)
+INPUTS_JSON = '{"rate": 2, "fees": [1, 10], "tag": "a\\"b", "cfg": {"deep": [null, -0.5]}}'
+INPUTS_PROGS = [
+    ("f = x => x * inputs.rate + inputs.fees[1]", ["1", "2.5"]),
+    ("f = x => [x, #rate, #fees, #tag, #cfg.deep, #missing]", ["0"]),
+    ("f = x => [x, inputs]", ["1"]),
+    ("g = y => y + inputs.rate\nf = x => g(x) * 2", ["1", "-3"]),
+    ("k = inputs.cfg\nf = x => [k.deep, inputs.cfg.deep, x]", ["7"]),
+    ("f = (x, inputs?) => [x, inputs]", ["1", "1, 2"]),
+    ("f = x => do {\n  r = #rate\n  return [r * x, keys(inputs)]\n}", ["3"]),
+    ("mk = a => (x => [a, x, inputs.tag])\nf = mk(#fees)", ["1"]),
+    ("f = x => map(inputs.fees, e => e * x + #rate)", ["2"]),
+]
+
+
+def cli_chain(cli, prog, args, inputs_json=None):
     """blots prog1 (outputs f and r_i = f(args_i)) | blots prog2 (r_i = inputs.f(args_i)) -> (r1 dict, r2 dict)"""
     with tempfile.TemporaryDirectory(prefix="c05cli") as td:
         p1 = os.path.join(td, "p1.blots")
@@ -320,7 +397,8 @@ def cli_chain(cli, prog, args):
             f.write("\n".join(lines + ["output r%d = f(%s)" % (i, a) for i, a in enumerate(args)]) + "\n")
         with open(p2, "w") as f:
             f.write("\n".join(["output r%d = inputs.f(%s)" % (i, a) for i, a in enumerate(args)] + ["output f = inputs.f"]) + "\n")
-        r1 = subprocess.run([cli, p1], stdin=subprocess.DEVNULL, capture_output=True, text=True, timeout=60)
+        r1 = subprocess.run([cli] + (["-i", inputs_json] if inputs_json else []) + [p1], stdin=subprocess.DEVNULL,
+                            capture_output=True, text=True, timeout=60)
         if r1.returncode != 0:
             return None, None, "prog1 rc=%d" % r1.returncode
         try:
@@ -361,8 +439,8 @@ def main(argv):
         print(json.dumps(rp, indent=1))
         if rp.get("program") is not None:
             d = fields(rust_emit(h, [("replay", rp["program"], rp.get("args", []))])[0])
-            print("implementation now returns (original/reloaded/re-reloaded):", d["R"])
-            ok = all(len(r) == 3 and r[0] == r[1] == r[2] for r in d["R"]) and bool(d["R"])
+            print("implementation now returns (original/reloaded/re-reloaded/third re-emission):", d["R"])
+            ok = all(len(r) == 4 and r[0] == r[1] == r[2] == r[3] for r in d["R"]) and bool(d["R"])
             return 0 if ok else 1
         return 0
 
@@ -399,7 +477,8 @@ def main(argv):
     want = (1 if nanfix else 0) + (2 if dofix else 0)
     stats = {"cases": len(cases), "errprog": 0, "not_closed": 0, "ast_agree": 0, "ast2_agree": 0, "ast_excused": {},
              "ast_mismatch": 0, "law_checked": 0, "law_ok": 0, "law_excused": {}, "law_violations": 0,
-             "by_kind": {}, "ok_results": 0, "err_results": 0, "fn_results": 0}
+             "by_kind": {}, "ok_results": 0, "err_results": 0, "fn_results": 0, "capture_depth": {},
+             "law_checked_by_capture_depth": {}, "calls_of_returned_functions": 0, "chains_len3_checked": 0}
     nontrivial = set()
     mism = []
     law_fail = []
@@ -416,6 +495,9 @@ def main(argv):
         closed = bits[5] == "1"
         ex = excuse(bits, state, "law", open_ids)
         ex1 = excuse(bits, state, "ast1", open_ids)
+        cd = capture_depth(d["VAL"])
+        stats["capture_depth"][str(cd)] = stats["capture_depth"].get(str(cd), 0) + 1
+        is_f52 = "F53" in open_ids and f52_class(prog, d["VAL"], args)
         # --- (i) correspondence: emitted text parsed by the real parser == model AST
         if a1[want] == "1":
             stats["ast_agree"] += 1
@@ -440,18 +522,26 @@ def main(argv):
                     stats["fn_results"] += 1
             else:
                 stats["err_results"] += 1
-            if len(r) == 3 and r[0] == r[1] == r[2]:
+            stats["law_checked_by_capture_depth"][str(cd)] = stats["law_checked_by_capture_depth"].get(str(cd), 0) + 1
+            if ")(" in a and r[0].startswith("OK"):
+                stats["calls_of_returned_functions"] += 1
+            if len(r) == 4 and "NOSESSION" not in r[3]:
+                stats["chains_len3_checked"] += 1
+            if len(r) == 4 and r[0] == r[1] == r[2] == r[3]:
                 stats["law_ok"] += 1
             elif ex is not None:
                 stats["law_excused"][ex] = stats["law_excused"].get(ex, 0) + 1
+            elif is_f52:
+                stats["law_excused"]["F53"] = stats["law_excused"].get("F53", 0) + 1
             else:
                 stats["law_violations"] += 1
                 law_fail.append((prog, a, r, rep))
     for prog, a, r, rep in law_fail[:5]:
         res.violation("a closed-after-capture function and its reloaded emission disagree",
                       {"kind": "impl-law", "program": prog, "args": [a],
-                       "observed": {"original": r[0], "reloaded": r[1], "re-emitted and reloaded": r[2] if len(r) > 2 else None},
-                       "expected": "all three equal", "classes": rep,
+                       "observed": {"original": r[0], "reloaded": r[1], "re-emitted and reloaded": r[2] if len(r) > 2 else None,
+                                    "third re-emission": r[3] if len(r) > 3 else None},
+                       "expected": "all four equal", "classes": rep,
                        "rerun": "./check C05 --replay <this file>"})
     if mism:
         stats["ast_mismatch"] = len(mism)
@@ -510,15 +600,34 @@ def main(argv):
         good = isinstance(o2, dict) and isinstance(o3, dict) and all(
             o1.get("r%d" % j) == o2.get("r%d" % j) == o3.get("r%d" % j) for j in range(len(args)))
         # the in-process result says whether this function reloads faithfully
-        inproc = all(r[0] == r[1] == r[2] for r in parsed[i]["R"])
+        inproc = all(r[0] == r[1] == r[2] == r[-1] for r in parsed[i]["R"])
         if good:
             chain_ok += 1
-        elif ex is not None:
+        elif ex is not None or ("F53" in open_ids and f52_class(prog, parsed[i]["VAL"], args)):
             chain_exc += 1
         else:
             res.violation("blots prog1 | blots prog2 | blots prog2: the reloaded function gives different outputs",
                           {"kind": "cli-chain", "program": prog, "args": args, "prog1": o1, "prog2": o2,
                            "prog2_again": o3 if isinstance(o3, dict) else str(o3), "in_process_agrees": inproc})
+    # functions over a non-empty `inputs` record, through the real binary only (the fresh program's inputs are the
+    # first program's OUTPUTS, so a name left unresolved at emission reads something else there)
+    inp_ok = inp_f54 = 0
+    for prog, args in INPUTS_PROGS:
+        o1, o2, o3 = cli_chain(cli, prog, args, INPUTS_JSON)
+        good = isinstance(o1, dict) and isinstance(o2, dict) and isinstance(o3, dict) and all(
+            o1.get("r%d" % j) == o2.get("r%d" % j) == o3.get("r%d" % j) for j in range(len(args)))
+        if good:
+            inp_ok += 1
+        elif "#" in prog and "F54" in open_ids:
+            inp_f54 += 1          # open finding F54: an input reference #name is not resolved at emission
+        else:
+            res.violation("a function that mentions `inputs` does not carry the values it saw to a fresh program "
+                          "(blots -i INPUTS prog1 | blots prog2 | blots prog2)",
+                          {"kind": "cli-chain-inputs", "program": prog, "args": args, "inputs": INPUTS_JSON, "prog1": o1,
+                           "prog2": o2 if isinstance(o2, dict) else str(o2), "prog2_again": o3 if isinstance(o3, dict) else str(o3)})
+    stats["cli_inputs_chains"] = len(INPUTS_PROGS)
+    stats["cli_inputs_chains_ok"] = inp_ok
+    stats["cli_inputs_chains_in_known_class_F54"] = inp_f54
     res.streams["EMIT"] = dict(stats, repo_state=state, model_variant="nanfix=%s dofix=%s" % (nanfix, dofix),
                                pool=len(POOL), small_shapes=len(small_bodies()),
                                behaviour_model_agree=beh_agree, behaviour_model_skipped_unmodelled=beh_skip,
@@ -542,8 +651,11 @@ def main(argv):
 
     # --- known findings
     wid = {"F10": ["F10"], "F11": ["F11", "F11b"], "F15": ["F15"], "F50": ["F50"], "F8": ["F8"], "F12-F14": ["F12-F14"],
-           "F51": ["F51"]}
+           "F51": ["F51"], "F53": ["F53"]}
     for e in c.open_known(PID):
+        if e["id"] == "F54":
+            res.known("%s %s%s" % (e["id"], e["what"], "" if inp_f54 else " (no longer reproduces)"))
+            continue
         rep_now = any(reproduces(h, w)[0] for w in wid.get(e["id"], []))
         res.known("%s %s%s" % (e["id"], e["what"], "" if rep_now else " (no longer reproduces)"))
     return res.finish()
